@@ -33,15 +33,17 @@ def run(ctx):
         stub_vals = [(Fraction(rng.randrange(-20, 21), 4), Fraction(rng.randrange(-20, 21), 4), Fraction(rng.randrange(-20, 21), 4)) for _ in range(k)]
 
         def stub(vals):
+            # every value also depends on the TRAINING labels handed in (their sum), so that reusing one JointUtility object on another
+            # training set with the same validation objects must give the new weighted sums, not remembered ones
             class Stub(U.Utility):
-                def __call__(self, *a, **kw):
-                    return U.UtilityResult(score=float(vals[0]))
+                def __call__(self, X_train, y_train, *a, **kw):
+                    return U.UtilityResult(score=float(vals[0]) + float(np.sum(y_train)))
 
-                def null_score(self, *a, **kw):
-                    return float(vals[1])
+                def null_score(self, X_train, y_train, *a, **kw):
+                    return float(vals[1]) + float(np.sum(y_train))
 
-                def mean_score(self, *a, **kw):
-                    return float(vals[2])
+                def mean_score(self, X_train, y_train, *a, **kw):
+                    return float(vals[2]) + float(np.sum(y_train))
             return Stub()
         js = U.JointUtility(*[stub(v) for v in stub_vals], weights=[float(w) for w in ws])
         Xs = np.zeros((2, 1))
@@ -50,6 +52,13 @@ def run(ctx):
         try:
             got3 = (float(js(Xs, ys, Xs, ys, null_score=123.0).score), float(js.null_score(Xs, ys, Xs, ys)), float(js.mean_score(Xs, ys, Xs, ys)))
             want3 = tuple(float(sum(w * v[t] for w, v in zip(ws, stub_vals))) for t in range(3))
+            # second training set (labels sum to 3), SAME validation objects, SAME JointUtility object
+            ys2 = np.array([1, 2])
+            got3b = (float(js(Xs, ys2, Xs, ys, null_score=123.0).score), float(js.null_score(Xs, ys2, Xs, ys)), float(js.mean_score(Xs, ys2, Xs, ys)))
+            want3b = tuple(float(sum(w * (v[t] + 3) for w, v in zip(ws, stub_vals))) for t in range(3))
+            if any(abs(a - b) > 1e-9 for a, b in zip(got3b, want3b)):
+                ctx.mismatch("JointUtility reused on another training set (same validation objects) does not return the weighted sums of its components'", scase,
+                             impl=dict(first=got3, second=got3b), spec=dict(first=want3, second=want3b))
             ctx.case(scase, nontrivial=(k >= 2 and any(w not in (0, 1) for w in ws)), sample=scase, part="joint-scalar", k=k, zero_weight=any(w == 0 for w in ws))
             if any(abs(a - b) > 1e-9 for a, b in zip(got3, want3)):
                 ctx.mismatch("JointUtility score / null_score / mean_score is not the weighted sum of the components'", scase, impl=got3, spec=want3)
